@@ -559,7 +559,7 @@ def _payload_of(rv, env):
     return None
 
 
-def fold_constant_switches(body):
+def fold_constant_switches(body, adts=None):
     """a switch on a local that has one definition in the whole body, a constant (a literal argument of an inlined helper:
     `parse_atom_name(input, len, true)`), takes one branch only: it becomes a goto"""
     defs = {}
@@ -571,6 +571,15 @@ def fold_constant_switches(body):
         if t.get('k') == 'call' and t.get('dst') and not t['dst'].get('p'):
             defs.setdefault(t['dst']['l'], []).append(None)
     argc = body.get('argc', 0)
+    # locals written to in part (a field assignment, a mutable borrow) are not "one literal"
+    partial = {}
+    for blk in body['blocks']:
+        for st in blk['s']:
+            if st.get('k') == '=':
+                if st['pl'].get('p'):
+                    partial[st['pl']['l']] = True
+                if st['rv'].get('k') in ('ref', 'rawptr') and (st['rv'].get('mut') or st['rv']['k'] == 'rawptr'):
+                    partial[st['rv']['pl']['l']] = True
 
     def const_of(l, depth=0):
         if depth > 6 or 1 <= l <= argc:
@@ -586,6 +595,26 @@ def fold_constant_switches(body):
         if rv.get('k') == 'un' and rv.get('op') == 'Not' and rv['a'].get('k') in ('cp', 'mv') and not rv['a']['pl'].get('p'):
             v = const_of(rv['a']['pl']['l'], depth + 1)
             return None if v is None else (0 if v else 1)
+        if rv.get('k') == 'discr' and not rv['pl'].get('p'):
+            # the discriminant of a value that is, through copies, one enum literal (`Width::U32` handed to a spliced-in helper)
+            return variant_of(rv['pl']['l'], depth + 1)
+        return None
+
+    def variant_of(l, depth=0):
+        if depth > 8 or 1 <= l <= argc:
+            return None
+        ds = defs.get(l, [])
+        if len(ds) != 1 or ds[0] is None:
+            return None
+        rv = ds[0]
+        if rv.get('k') == 'use' and rv['op'].get('k') in ('cp', 'mv') and not rv['op']['pl'].get('p'):
+            return variant_of(rv['op']['pl']['l'], depth + 1)
+        if rv.get('k') == 'agg' and rv.get('ak') == 'adt' and 'vi' in rv and not partial.get(l):
+            a = (adts or {}).get(rv.get('adt'))
+            try:
+                return int(a['variants'][rv['vi']]['discr']) if a else rv['vi']
+            except Exception:
+                return rv['vi']
         return None
     for blk in body['blocks']:
         t = blk['t']
@@ -1133,7 +1162,7 @@ def normalise(F):
         if p in changed:
             nb_ = devirtualise(nb_)
         if nb_ is not b:
-            nb_ = fold_constant_switches(nb_)
+            nb_ = fold_constant_switches(nb_, F.adts)
             nb_ = thread_jumps(nb_, F.adts)
             nb_ = split_webs(nb_)
         out[p] = nb_
@@ -1171,7 +1200,7 @@ def normalise(F):
         if q in newset and q not in out and q in F.bodies:
             nb_ = inline_into(F, F.bodies[q], newset - {q}, (), 0, alias)
             if nb_ is not F.bodies[q]:
-                nb_ = thread_jumps(fold_constant_switches(nb_), F.adts)
+                nb_ = thread_jumps(fold_constant_switches(nb_, F.adts), F.adts)
             out[q] = nb_
             work += _fn_items(nb_)
     F.bodies = out
